@@ -228,6 +228,48 @@ def conforms (d : Desc) (m : ModelT) : List Problem :=
     let per := (subs.zip m.subgraphs).zipIdx.map fun ((ps, f), k) => (subgraphProblems d m k ps f, f.tensors.length)
     hdr ++ wellFormed m ++ per.flatMap (·.1.2) ++ metadataProblems d m (per.map fun x => (x.1.1, x.2))
 
+/-! ## the domain on which this checker and the writer agree (`Props/C11Writer.conforms_write`: on it `conforms d (write d) = []`)
+
+Outside it the checker is stricter than the writer (each clause has a `_witness` in Props/C11Writer.lean); the harness counts how
+many real descriptions are inside (`wdomain`). -/
+
+/-- the subgraph outputs as `subgraphProblems` reads them: virtual outputs removed, original positions expanded -/
+def specOuts2 (ps : PSub) : List Nat :=
+  match ps.sg.originalOutputPositions with
+  | none => removeVirtual ps.sg.outputTensors ps.sg.virtualOutputs
+  | some pos => pos.filterMap ((removeVirtual ps.sg.outputTensors ps.sg.virtualOutputs)[·]?)
+
+/-- every subgraph output that is left after the virtual outputs were removed is listed at one of the original output positions (or
+    is written anyway: an original input, an operand of a written operator or of a Placeholder). Since the repair C11-60 the writer
+    puts every remaining output into the tensor table; one that the expanded output list does not name would be a tensor of the file
+    nothing refers to. (Before the repair the clause was the opposite inclusion: a listed output that was not written was dropped.) -/
+def outsListedB (ps : PSub) : Bool :=
+  (Writer.sgOuts ps).all fun g => (specOuts2 ps).contains g || (Writer.tensorSet ps.sg.originalInputs (Writer.sgOps ps) []).contains g
+
+/-- a Placeholder has no operands or intermediates of its own -/
+def placeholdersPlainB (ps : PSub) : Bool :=
+  ps.ops.all (fun p => !(p.placeholder && p.ignored) || (p.inputs ++ p.intermediates).all (· == none))
+
+def sgDomainB (ps : PSub) : Bool := outsListedB ps && placeholdersPlainB ps
+
+/-- the domain of `conforms_write`, as a checker: at least one subgraph is written (otherwise buffer 0 is the `vela_version`
+buffer), every remaining subgraph output is listed at an original output position (or written anyway), Placeholders have no operands
+of their own -/
+def conformsDomainB (d : Desc) : Bool :=
+  !(subgraphsToWrite d).isEmpty &&
+  match (subgraphsToWrite d).mapM (prepSub d.tensors) with
+  | .ok subs => subs.all sgDomainB
+  | .error _ => true
+
+/-- the first clause of the domain a description leaves (`in` when none) -/
+def domainClause (d : Desc) : String :=
+  if (subgraphsToWrite d).isEmpty then "no-written-subgraph" else
+  match (subgraphsToWrite d).mapM (prepSub d.tensors) with
+  | .ok subs =>
+    if !subs.all outsListedB then "unlisted-output"
+    else if !subs.all placeholdersPlainB then "placeholder-operand" else "in"
+  | .error _ => "in"
+
 /-! ## the reader's output -/
 
 /-- the full range of an integer element type: unsigned `[0, 2^bits − 1]`, signed two's complement `[−2^(bits−1), 2^(bits−1) − 1]` -/
